@@ -57,6 +57,7 @@ type HarnessSpec struct {
 	Note     string  `json:"note,omitempty"`
 	Reach    []string `json:"reach,omitempty"` // reach tags that must be witnessed (default: "end")
 	Repeat   int     `json:"replay_repeat,omitempty"` // native replay attempts (map-order dependent harnesses)
+	Schedule bool    `json:"schedule,omitempty"`      // counterexamples are interleavings: replayed in the engine, not natively
 }
 
 type PropSpec struct {
